@@ -80,6 +80,31 @@ mod imp {
         if HARVEST_ON.with(|h| h.get()) {
             HARVEST.with(|h| h.borrow_mut().push(buf.to_vec()));
         }
+        // corpus harvest: with HTTPARSE_VERIF_HARVEST=<file> every buffer handed to the
+        // cursor type is appended to that file as one hex line
+        static SINK: std::sync::OnceLock<Option<std::sync::Mutex<std::fs::File>>> = std::sync::OnceLock::new();
+        let sink = SINK.get_or_init(|| {
+            std::env::var_os("HTTPARSE_VERIF_HARVEST").and_then(|p| {
+                std::fs::OpenOptions::new().create(true).append(true).open(p).ok().map(std::sync::Mutex::new)
+            })
+        });
+        if let Some(m) = sink {
+            use std::io::Write;
+            // at most 2000 buffers per thread (= per test), so that tests which parse
+            // millions of generated inputs do not drown the rest
+            thread_local!(static WRITTEN: Cell<u32> = Cell::new(0));
+            if WRITTEN.with(|w| { let n = w.get(); w.set(n + 1); n }) >= 2000 {
+                return;
+            }
+            let mut line = String::with_capacity(buf.len() * 2 + 1);
+            for b in buf {
+                line.push_str(&format!("{:02x}", b));
+            }
+            line.push('\n');
+            if let Ok(mut f) = m.lock() {
+                let _ = f.write_all(line.as_bytes());
+            }
+        }
     }
 
     pub fn race(what: u8, value: u8) {
